@@ -634,7 +634,7 @@ func main() {
 	log := mon.NewLog()
 	svc.SetSink(log)
 	w := &checker{r: r, log: log, store: wk.NewMemStorage(), key: []byte("c16-shared-token-key-0123456789ab"), caches: map[string]*wk.Cluster{}}
-	n := r.N(2000, 100000)
+	n := r.N(2000, 200000)
 	for i := 0; i < n; i++ {
 		c := genCase(r, i)
 		if i < 2 {
